@@ -225,6 +225,9 @@ def make_rng(handler, kind):
     return ScriptedGenerator(handler) if kind == "Generator" else ScriptedRandomState(handler)
 
 
+_PRNG_MODS = None
+
+
 @contextlib.contextmanager
 def patched_global_prng(obj):
     """Replace every module-level name `global_prng` inside pybrops (the object the sampling code falls
@@ -232,11 +235,13 @@ def patched_global_prng(obj):
     that numpy's real global stream was not consumed (all randomness must go through the script)."""
     import pybrops.core.random.prng as P
     real = P.global_prng
-    touched = []
-    for name, mod in list(sys.modules.items()):
-        if mod is not None and name.startswith("pybrops") and getattr(mod, "global_prng", None) is real:
-            touched.append(mod)
-            mod.global_prng = obj
+    global _PRNG_MODS
+    if _PRNG_MODS is None or _PRNG_MODS[0] != len(sys.modules):
+        _PRNG_MODS = (len(sys.modules), [mod for name, mod in list(sys.modules.items())
+                                         if mod is not None and name.startswith("pybrops") and getattr(mod, "global_prng", None) is real])
+    touched = _PRNG_MODS[1]
+    for mod in touched:
+        mod.global_prng = obj
     st0 = numpy.random.get_state()
     try:
         yield
